@@ -72,7 +72,15 @@ def plan(tier, seed):
             dt = area / (gmax * 2e6)
             if dt > 1e-4:
                 continue
-        P.add("trap", fn=fn, area=area, gmax=gmax, dgdt=dgdt, dt=dt, mode=mode,
+        units = "s,G/cm"
+        if i % 5 == 2:
+            # the same design problem in another consistent unit system: time in ms / us / ns
+            # (or ks), amplitude in mT/m, T/m ... - the designers are unit-free
+            ts = float(pick(rng, [1e3, 1e6, 1e6, 1e9, 1e-3]))
+            cs = float(pick(rng, [1.0, 10.0, 1e-4, 1e3]))
+            area, gmax, dgdt, dt = area * ts * cs, gmax * cs, dgdt * cs / ts, dt * ts
+            units = "t*%g,g*%g" % (ts, cs)
+        P.add("trap", fn=fn, area=area, gmax=gmax, dgdt=dgdt, dt=dt, mode=mode, units=units,
               argtype=pick(rng, ["py", "py", "py", "np", "np32"]))
     # integer-typed arguments (valid numbers): whole-number limits and areas
     for i in range(40 if quick else 400):
@@ -138,7 +146,8 @@ def run_trap(case):
     fn, area, gmax, dgdt, dt = case["fn"], case["area"], case["gmax"], case["dgdt"], case["dt"]
     ramp_max = int(np.ceil(gmax / dgdt / dt))
     regime = "tri" if ramp_max * dt * gmax > area else "trap"
-    sig = "|".join(map(str, [fn, case["mode"], regime, "a%d" % int(np.log10(area)),
+    sig = "|".join(map(str, [fn, case["mode"], regime, case.get("units", ""),
+                             "a%d" % int(np.log10(area)),
                              "g%d" % int(np.log10(gmax)), "s%d" % int(np.log10(dgdt)),
                              "t%d" % int(np.log10(dt))]))
     wit = dict(case)
